@@ -152,7 +152,9 @@ pub fn build(quick: bool) -> Check {
         Action::Close { id: 2 },
     ];
     for d in (if quick { 5..=6 } else { 5..=7 }) {
-        families.push(Box::new(IdTree { label: "lifecycle".into(), alpha: core.clone(), depth: d, maps: id_maps() }));
+        // quick: the deepest level under two of the eight maps
+        let maps = if quick && d == 6 { vec![id_maps()[0], id_maps()[6]] } else { id_maps() };
+        families.push(Box::new(IdTree { label: "lifecycle".into(), alpha: core.clone(), depth: d, maps }));
     }
     families.push(Box::new(OverlongClose));
     families.push(Box::new(DeadIds));
@@ -164,7 +166,7 @@ pub fn build(quick: bool) -> Check {
     Check {
         id: "C10",
         level: "model_checking",
-        rule: format!("histories over {} actions: PREPARE(id 1|2, 0..2 params, accepted|rejected), EXECUTE(id 1|2|3(never prepared), bind|reuse), LONG_DATA (with data and empty), CLOSE. (1) the full history tree to depth {} from a fresh connection, no abstraction; (2) BFS over reference-model states (registry map) where every transition is validated by re-running the implementation on witness+action, from two different witnesses per state when two were found. Long scripted sessions: 130..4099 (thorough: up to 131101) ordinary commands of every kind on one connection in up to six mixes (even, prepare/close churn with growing ids, executions, long-data chunks, unanswered commands, text and library-answered commands) under several client/transport behaviours (pipelined, request ids advancing by 7, lock-step, 1..4093-byte reads, 7/11-byte writes), generated by a fixed rule, kept valid with the registry model and judged on the complete trace (callbacks with arguments, result, strict decode of every reply with its sequence ids). Oracle per history: complete callback log, run_on result and strictly decoded replies equal the registry model (dead ids never reach the shim and end the connection with Err, every CLOSE -> exactly one on_close and no reply bytes, re-prepare resets parameter count/types/long data). (2b) every history of 5-6 (thorough: 7) actions over a 12-action core of two statements and one id never prepared, under eight id maps (300/100, 100/300, 70000/3, 2^32-1/0, 256/0, 4096/4095, 65536/65537, ids equal modulo 2^16 and 2^24). (3) long histories: 8..1000 open statements, one long-lived statement next to 6..600 prepare/execute/close cycles; statements of 9..300 parameters closed and re-prepared under the same or another id; COM_STMT_CLOSE packets with 1..29 trailing bytes; EXECUTE / SEND_LONG_DATA for seven ids that are not open (0 .. 2^32-1) x six flags bytes x three iteration counts x with/without parameter block x three contexts; thorough: 120 MB of long data discarded by re-preparing an open id. Non-trivial = history not pruned as a duplicate.", alpha.len(), if quick {6} else {7}),
+        rule: format!("histories over {} actions: PREPARE(id 1|2, 0..2 params, accepted|rejected), EXECUTE(id 1|2|3(never prepared), bind|reuse), LONG_DATA (with data and empty), CLOSE. (1) the full history tree to depth {} from a fresh connection, no abstraction; (2) BFS over reference-model states (registry map) where every transition is validated by re-running the implementation on witness+action, from two different witnesses per state when two were found. Long scripted sessions: 130..4099 (thorough: up to 131101) ordinary commands of every kind on one connection in up to six mixes (even, prepare/close churn with growing ids, executions, long-data chunks, unanswered commands, text and library-answered commands) under several client/transport behaviours (pipelined, request ids advancing by 7, lock-step, 1..4093-byte reads, 7/11-byte writes), generated by a fixed rule, kept valid with the registry model and judged on the complete trace (callbacks with arguments, result, strict decode of every reply with its sequence ids). Oracle per history: complete callback log, run_on result and strictly decoded replies equal the registry model (dead ids never reach the shim and end the connection with Err, every CLOSE -> exactly one on_close and no reply bytes, re-prepare resets parameter count/types/long data). (2b) every history of 5-6 (thorough: 7) actions over a 12-action core of two statements and one id never prepared, under eight id maps (quick: depth 6 under two of them) (300/100, 100/300, 70000/3, 2^32-1/0, 256/0, 4096/4095, 65536/65537, ids equal modulo 2^16 and 2^24). (3) long histories: 8..1000 open statements, one long-lived statement next to 6..600 prepare/execute/close cycles; statements of 9..300 parameters closed and re-prepared under the same or another id; COM_STMT_CLOSE packets with 1..29 trailing bytes; EXECUTE / SEND_LONG_DATA for seven ids that are not open (0 .. 2^32-1) x six flags bytes x three iteration counts x with/without parameter block x three contexts; thorough: 120 MB of long data discarded by re-preparing an open id. Non-trivial = history not pruned as a duplicate.", alpha.len(), if quick {6} else {7}),
         assumptions: vec![
             "an EXECUTE that reuses types when none were ever bound for the (re-)prepared statement is treated as connection-ending (it cannot be decoded)".into(),
             "BFS merging assumes hidden implementation state is a function of the model state; tested with two witnesses per state and not assumed at all by the tree".into(),
